@@ -333,12 +333,19 @@ def run(tier):
                       "the meaning of a call on a contiguous string is the specification's (calibrated on one-fragment runs of the same code)",
                       "reads outside a fragment are observed by ASan on exactly sized allocations, not proved",
                       "the exhaustive model is bounded (see MC cfgs); beyond it coverage is by the seeded long messages"]
+    # extension X17: the other consumers / producers of fragmented messages (checks/x17_msgiter.py, docs/X17_msgiter.md)
+    import x17_msgiter
+    if x17_msgiter.enabled():
+        x17_msgiter.run_part(ck, tier)
     return ck.finish()
 
 
 def replay(path):
     d = json.load(open(path))
     det = d["detail"]
+    if det.get("part") == "x17":
+        import x17_msgiter
+        return x17_msgiter.replay(det, path)
     beh = det.get("behaviour")
     if not beh:
         print(json.dumps(det, indent=1)[:4000])
